@@ -305,6 +305,11 @@ class SecureField(Field):
         super().__init__(sensitive=sensitive, **kwargs)
         self.method = method
 
+    def _validate(self, cfg: Config, value: Any) -> str:
+        if not isinstance(value, str):
+            raise ValueError("value must be a string, not a %s" % type(value).__name__)
+        return value
+
     def to_basic(self, cfg: Config, value: str) -> Optional[dict]:
         if not value:
             return None
